@@ -96,15 +96,25 @@ func runC17(c *core.Ctx) {
 		doNew[n] = f
 		c.Analysed(core.FuncName(f))
 		ok := false
-		core.Instrs(f, func(ins ssa.Instruction) {
-			if call, isC := ins.(*ssa.Call); isC && core.StdCallee(&call.Call) == "net/http.NewRequestWithContext" {
-				// (ctx, method, url, body)
-				ok = call.Call.Args[1] == ssa.Value(f.Params[3]) && call.Call.Args[2] == ssa.Value(f.Params[4]) && call.Call.Args[0] == ssa.Value(f.Params[1])
-				if n == "DoNewRequestWithBodyOptions" {
-					ok = ok && core.Unwrap(call.Call.Args[3]) == ssa.Value(f.Params[5])
+		// (the request may be built in an unexported helper that gets the parameters passed on)
+		for _, fd := range core.DeepFind(p, f, func(ins ssa.Instruction) bool {
+			call, isC := ins.(*ssa.Call)
+			return isC && core.StdCallee(&call.Call) == "net/http.NewRequestWithContext"
+		}) {
+			call := fd.Ins.(*ssa.Call)
+			arg := func(i int) ssa.Value {
+				v, st := core.Up(core.Unwrap(call.Call.Args[i]), fd.Stack)
+				if len(st) != 0 {
+					return nil
 				}
+				return core.Unwrap(v)
 			}
-		})
+			// (ctx, method, url, body)
+			ok = arg(1) == ssa.Value(f.Params[3]) && arg(2) == ssa.Value(f.Params[4]) && arg(0) == ssa.Value(f.Params[1])
+			if n == "DoNewRequestWithBodyOptions" {
+				ok = ok && arg(3) == ssa.Value(f.Params[5])
+			}
+		}
 		c.Check(ok, "R1", "SimpleHTTPDef."+n+"/passes-method-url-body", p.Pos(f.Pos()), "NewRequestWithContext(ctx, method, url, body) receives the parameters unchanged", "the request is not built from the given method/url/body parameters")
 		// the given header (and Content-Type) reach the request before it is sent
 		okH, dH := c17appliesHeader(p, f, n == "DoNewRequestWithBodyOptions")
@@ -654,9 +664,14 @@ func c17fold(p *core.Prog, fold *ssa.Function) (bool, string) {
 // request's header wherever it is non-nil, and (body variant) the content type is added wherever it is non-empty.
 func c17appliesHeader(p *core.Prog, f *ssa.Function, withCT bool) (bool, string) {
 	var build, send *ssa.Call
+	var helperBuild *ssa.Call // the NewRequestWithContext call inside the helper, when build is a helper call
+	isBuild := func(ins ssa.Instruction) bool {
+		call, ok := ins.(*ssa.Call)
+		return ok && core.StdCallee(&call.Call) == "net/http.NewRequestWithContext"
+	}
 	core.Instrs(f, func(ins ssa.Instruction) {
 		if call, ok := ins.(*ssa.Call); ok {
-			if core.StdCallee(&call.Call) == "net/http.NewRequestWithContext" {
+			if isBuild(ins) {
 				build = call
 			}
 			if g := core.Callee(&call.Call); g != nil && g.Name() == "DoRequest" {
@@ -664,6 +679,14 @@ func c17appliesHeader(p *core.Prog, f *ssa.Function, withCT bool) (bool, string)
 			}
 		}
 	})
+	if build == nil {
+		// an unexported helper that builds the request and returns (request, error)
+		for _, fd := range core.DeepFind(p, f, isBuild) {
+			if len(fd.Stack) == 1 && fd.Stack[0].Call.Signature().Results().Len() == 2 {
+				build, helperBuild = fd.Stack[0], fd.Ins.(*ssa.Call)
+			}
+		}
+	}
 	if build == nil || send == nil {
 		return false, "the request is not built with NewRequestWithContext and sent through DoRequest"
 	}
@@ -700,6 +723,37 @@ func c17appliesHeader(p *core.Prog, f *ssa.Function, withCT bool) (bool, string)
 	}, func(ins ssa.Instruction) bool { return ins == ssa.Instruction(send) }, func(b, s2 *ssa.BasicBlock) bool {
 		return errEdge(b, s2) || isParamTest(b, s2, header, func(m core.Cmp) bool { return m.Op == token.EQL && core.IsNilConst(m.Y) })
 	})
+	if !okH && helperBuild != nil {
+		// the helper installs the header it is given before it returns the request: every non-error return of the helper
+		// passes the store, and the helper gets this function's header
+		h := helperBuild.Parent()
+		for j, prm := range h.Params {
+			if j >= len(build.Call.Args) || core.Resolve(build.Call.Args[j]) != header {
+				continue
+			}
+			hHeader := ssa.Value(prm)
+			hErrEdge := func(b, s2 *ssa.BasicBlock) bool {
+				iff, ok := b.Instrs[len(b.Instrs)-1].(*ssa.If)
+				if !ok || len(b.Succs) != 2 {
+					return false
+				}
+				for _, cnd := range core.ExpandCond(core.Cond{V: iff.Cond, True: b.Succs[0] == s2, If: iff}) {
+					if m, isM := core.AsCmp(cnd); isM && m.Op == token.NEQ && core.IsNilConst(m.Y) {
+						if ex, isE := core.Resolve(m.X).(*ssa.Extract); isE && ex.Tuple == ssa.Value(helperBuild) && ex.Index == 1 {
+							return true
+						}
+					}
+				}
+				return false
+			}
+			okH, _ = core.MustPassBefore(helperBuild, func(ins ssa.Instruction) bool {
+				st, ok := ins.(*ssa.Store)
+				return ok && core.FieldKey(st.Addr) == "Request.Header" && core.Resolve(st.Val) == hHeader
+			}, func(ssa.Instruction) bool { return false }, func(b, s2 *ssa.BasicBlock) bool {
+				return hErrEdge(b, s2) || isParamTest(b, s2, hHeader, func(m core.Cmp) bool { return m.Op == token.EQL && core.IsNilConst(m.Y) })
+			})
+		}
+	}
 	if !okH {
 		return false, "the given header is not installed on the request on every path where it is non-nil: the copy of DefaultHeader never reaches the server"
 	}
